@@ -69,6 +69,14 @@ F(c) == CASE c.kind = "ok"      -> OkVal(c.zone)
 
 Failed(r) == r.kind # "ok"
 
+\* FsTzdbProvider::get as a function of the cache: what one lookup of zone z observes and leaves behind,
+\* `zones` being the identifiers that have a TZif file (shared with the trace specification)
+LookupKind(c, z, zones) == IF z = NoZone THEN "none" ELSE IF z \in c THEN "hit" ELSE IF z \in zones THEN "miss" ELSE "fail"
+CacheAfter(c, z, zones) == IF z \in zones THEN c \cup {z} ELSE c      \* a failed lookup inserts nothing
+
+\* what acquiring the lock does to the result: only the "error" design lets the poison flag change it
+Outcome(fres, poisonedAtAcquire) == IF poisonedAtAcquire /\ PoisonBehaviour = "error" THEN LockErr ELSE fres
+
 (***************************************************************************
 --fair algorithm ProviderLock {
   variables holder = None,        \* thread holding the mutex
@@ -105,10 +113,9 @@ Failed(r) == r.kind # "ok"
               } else {
                  holder := self
               };
-   Lookup:    if (cl.zone = NoZone) { lk := "none" }
-              else if (cl.zone \in cache) { lk := "hit" }
-              else if (cl.zone \in Zones) { lk := "miss"; cache := cache \cup {cl.zone} }
-              else { lk := "fail"; res := IoErr; goto Release };      \* read_tzif failed: nothing inserted
+   Lookup:    lk := LookupKind(cache, cl.zone, Zones);
+              cache := CacheAfter(cache, cl.zone, Zones);
+              if (lk = "fail") { res := IoErr; goto Release };        \* read_tzif failed: nothing inserted
    Compute:   if (cl.kind = "panic") { res := Panicked; goto Panic }
               else if (cl.kind = "range") { res := RangeErr }
               else { res := OkVal(cl.zone) };
@@ -175,23 +182,13 @@ Acquire(self) == /\ pc[self] = "Acquire"
                  /\ UNCHANGED << poisoned, cache, failed, n, lk >>
 
 Lookup(self) == /\ pc[self] = "Lookup"
-                /\ IF cl[self].zone = NoZone
-                      THEN /\ lk' = [lk EXCEPT ![self] = "none"]
-                           /\ pc' = [pc EXCEPT ![self] = "Compute"]
-                           /\ UNCHANGED << cache, res >>
-                      ELSE /\ IF cl[self].zone \in cache
-                                 THEN /\ lk' = [lk EXCEPT ![self] = "hit"]
-                                      /\ pc' = [pc EXCEPT ![self] = "Compute"]
-                                      /\ UNCHANGED << cache, res >>
-                                 ELSE /\ IF cl[self].zone \in Zones
-                                            THEN /\ lk' = [lk EXCEPT ![self] = "miss"]
-                                                 /\ cache' = (cache \cup {cl[self].zone})
-                                                 /\ pc' = [pc EXCEPT ![self] = "Compute"]
-                                                 /\ res' = res
-                                            ELSE /\ lk' = [lk EXCEPT ![self] = "fail"]
-                                                 /\ res' = [res EXCEPT ![self] = IoErr]
-                                                 /\ pc' = [pc EXCEPT ![self] = "Release"]
-                                                 /\ cache' = cache
+                /\ lk' = [lk EXCEPT ![self] = LookupKind(cache, cl[self].zone, Zones)]
+                /\ cache' = CacheAfter(cache, cl[self].zone, Zones)
+                /\ IF lk'[self] = "fail"
+                      THEN /\ res' = [res EXCEPT ![self] = IoErr]
+                           /\ pc' = [pc EXCEPT ![self] = "Release"]
+                      ELSE /\ pc' = [pc EXCEPT ![self] = "Compute"]
+                           /\ res' = res
                 /\ UNCHANGED << holder, poisoned, failed, order, n, cl, 
                                 afterFail, slot >>
 
